@@ -1,0 +1,107 @@
+package helpers
+
+import (
+	"fmt"
+	"reflect"
+)
+
+// maxPrintDepth bounds how deep a value may nest before it is treated like a cyclic one.
+const maxPrintDepth = 10000
+
+// Sprint returns the string form of a template value, as fmt.Sprint does. fmt keeps no
+// record of what it has visited: a value that contains itself through maps, slices or
+// interfaces (m["self"] = m) makes it recurse until the stack is exhausted, which ends
+// the process. Such a value is printed as its type instead.
+func Sprint(v any) string {
+	if IsCyclic(v) {
+		return fmt.Sprintf("%T(cyclic)", v)
+	}
+	return fmt.Sprint(v)
+}
+
+// IsCyclic reports whether printing v would never end: whether v reaches itself
+// through the maps, slices, arrays, structs, interfaces and the top-level pointer
+// that fmt follows.
+func IsCyclic(v any) bool {
+	switch v.(type) {
+	case nil, string, bool, int, int8, int16, int32, int64, uint, uint8, uint16, uint32, uint64, uintptr, float32, float64:
+		return false
+	}
+	return isCyclic(reflect.ValueOf(v), map[visit]bool{}, 0)
+}
+
+// visit identifies a map or slice on the path from the printed value to the current one.
+type visit struct {
+	ptr uintptr
+	len int
+	typ reflect.Type
+}
+
+func isCyclic(rv reflect.Value, path map[visit]bool, depth int) bool {
+	if depth > maxPrintDepth {
+		return true
+	}
+	if rv.IsValid() && rv.CanInterface() {
+		// fmt asks these for their text instead of walking them
+		switch rv.Interface().(type) {
+		case fmt.Formatter, fmt.Stringer, error:
+			return false
+		}
+	}
+	switch rv.Kind() {
+	case reflect.Interface:
+		if rv.IsNil() {
+			return false
+		}
+		return isCyclic(rv.Elem(), path, depth+1)
+	case reflect.Pointer:
+		// Only a pointer at the top is followed; nested ones are printed as addresses
+		if rv.IsNil() || depth > 0 {
+			return false
+		}
+		return isCyclic(rv.Elem(), path, depth+1)
+	case reflect.Map:
+		if rv.IsNil() {
+			return false
+		}
+		here := visit{rv.Pointer(), 0, rv.Type()}
+		if path[here] {
+			return true
+		}
+		path[here] = true
+		defer delete(path, here)
+		iter := rv.MapRange()
+		for iter.Next() {
+			if isCyclic(iter.Value(), path, depth+1) {
+				return true
+			}
+		}
+	case reflect.Slice:
+		if rv.IsNil() || rv.Len() == 0 {
+			return false
+		}
+		here := visit{rv.Pointer(), rv.Len(), rv.Type()}
+		if path[here] {
+			return true
+		}
+		path[here] = true
+		defer delete(path, here)
+		fallthrough
+	case reflect.Array:
+		switch rv.Type().Elem().Kind() {
+		case reflect.Interface, reflect.Map, reflect.Slice, reflect.Array, reflect.Struct:
+			for i := 0; i < rv.Len(); i++ {
+				if isCyclic(rv.Index(i), path, depth+1) {
+					return true
+				}
+			}
+		}
+	case reflect.Struct:
+		for i := 0; i < rv.NumField(); i++ {
+			if isCyclic(rv.Field(i), path, depth+1) {
+				return true
+			}
+		}
+	}
+	return false
+}
